@@ -1,4 +1,5 @@
 import PegVerif.Proofs.FrontEndProofs
+import PegVerif.Proofs.Termination
 /-
   C12 – grammar text is read into the structure its syntax denotes.
   The front end is `eval` on the meta-grammar *extracted from /repo/grammar.ebnf on every run*
@@ -49,5 +50,14 @@ theorem C12_meta_grammar_wellformed :
     NoLeftrec Extracted.metaGrammar ∧ allRefsDefined Extracted.metaGrammar = true ∧
     exportedRules Extracted.metaGrammar = ["Grammar"] :=
   ⟨metaGrammar_noLeftrec, metaGrammar_refs, metaGrammar_exports⟩
+
+/-- **Totality of the front end**: on every text (valid or not, any bytes) the front end answers – a grammar,
+    a parse error, or a reported shape failure – for all sufficiently large fuels; it never diverges.
+    (grammar.ebnf passes the well-formedness check `wfCheck`, re-decided by the kernel on every run.) -/
+theorem C12_front_end_total (text : List UInt8) :
+    ∃ n0, ∀ n, n0 ≤ n → FrontEnd.parse n text ≠ .other "out of fuel" :=
+  frontEnd_terminates_stable text
+
+theorem C12_meta_grammar_terminating : wfCheck Extracted.metaGrammar {} = true := metaGrammar_wf
 
 end Peg.Props
